@@ -11,6 +11,7 @@ package main
 // and (child process) vectors placed against an inaccessible page: a read past the end faults.
 
 import (
+	"sync"
 	"bytes"
 	"fmt"
 	"math"
@@ -123,6 +124,59 @@ func runSimd(c *Ctx) {
 		return // the same call in this process would take the harness down
 	}
 	c.End()
+	// ---- re-entrancy: the kernels are called from many goroutines at once (searches, a search during an
+	// insert). Each goroutine has its own vectors and knows what a lone call returns for them, bit for bit.
+	{
+		c.Begin("kernels called from 16 goroutines at once")
+		type pair struct {
+			a, b amath.Vector
+			want [3]uint32
+		}
+		G := 16
+		per := c.Pick(20000, 200000)
+		sets := make([][]pair, G)
+		for g := range sets {
+			for i := 0; i < 8; i++ {
+				n := 1 + rng.Intn(70)
+				p := pair{a: make(amath.Vector, n), b: make(amath.Vector, n)}
+				for j := 0; j < n; j++ {
+					p.a[j], p.b[j] = float32(rng.Norm()), float32(rng.Norm())
+				}
+				for k := 0; k < 3; k++ {
+					p.want[k] = math.Float32bits(call(avx, k, p.a, p.b))
+				}
+				sets[g] = append(sets[g], p)
+			}
+		}
+		var mu sync.Mutex
+		bad := ""
+		var wg sync.WaitGroup
+		for g := 0; g < G; g++ {
+			wg.Add(1)
+			go func(ps []pair) {
+				defer wg.Done()
+				for i := 0; i < per; i++ {
+					p := ps[i%len(ps)]
+					k := i % 3
+					if got := math.Float32bits(call(avx, k, p.a, p.b)); got != p.want[k] {
+						mu.Lock()
+						if bad == "" {
+							bad = fmt.Sprintf("%s of two %d-element vectors: %v while other goroutines call the kernels, %v alone", names[k], len(p.a), math.Float32frombits(got), math.Float32frombits(p.want[k]))
+						}
+						mu.Unlock()
+						return
+					}
+				}
+			}(sets[g])
+		}
+		wg.Wait()
+		c.OpLocal("%d goroutines x %d calls of the dispatcher's implementation on private vectors, each compared bit for bit with the lone call", G, per)
+		if bad != "" {
+			c.Violate("C15", "C15/not-reentrant", "a kernel returns another value when it is called from several goroutines at once: "+bad, c.History())
+		}
+		c.Nontrivial("reentrancy")
+		c.End()
+	}
 	c.Begin("kernels")
 	cases, boundChecks := 0, 0
 	for n := 1; n <= L; n++ {
